@@ -1393,7 +1393,7 @@ class Interp:
         bound_self = getattr(fn, "__self__", None)
         if isinstance(bound_self, types.ModuleType):
             bound_self = None
-        if bound_self is not None and getattr(bound_self, "_symx_call_native", False):
+        if (bound_self is not None and getattr(bound_self, "_symx_call_native", False)) or getattr(fn, "_symx_call_native", False):
             return fn(*args, **kwargs)
         symbolic = any(self.deep_symbolic(a) for a in args) or any(self.deep_symbolic(a) for a in kwargs.values()) \
             or (bound_self is not None and self.deep_symbolic(bound_self))
@@ -2215,6 +2215,12 @@ class Interp:
     def subscript(self, c, k):
         if isinstance(c, tuple) and len(c) == 2 and isinstance(c[0], str) and c[0] == "__vstack__":
             c = c[1]
+            if isinstance(k, tuple) and len(k) == 2:
+                # 2-d indexing data[i, j] / data[i, :]
+                row = self.subscript(c, k[0])
+                if isinstance(k[1], slice):
+                    return list(row)[k[1]]
+                return self.subscript(row, k[1])
         if isinstance(c, SymArray):
             c = c.items
         if isinstance(c, WhereResult):
